@@ -170,7 +170,7 @@ The witness is stated on a *pinned literal copy* of the probed workout table (so
 /repo is repaired; the regenerated table then simply has `sortFrom = 3` and `C14_sorted_stable_partial` covers it). -/
 
 def pinnedWorkout : FileType := {
-  name := "workout", ftype := 5, sortFrom := 6, defaultDg := 0, d1 := .other, d253 := .absent, d254 := .absent, dropped := [],
+  name := "workout", gotype := "filedef.Workout", ftype := 5, sortFrom := 6, defaultDg := 0, d1 := .other, d253 := .absent, d254 := .absent, dropped := [],
   slots := [⟨0, .value, .opaque, .verbatim, .verbatim⟩, ⟨207, .list, .opaque, .verbatim, .verbatim⟩,
             ⟨206, .list, .opaque, .verbatim, .verbatim⟩, ⟨26, .single, .opaque, .verbatim, .opaque⟩,
             ⟨27, .list, .opaque, .verbatim, .opaque⟩] }
